@@ -11,8 +11,21 @@ The hand-written files SLV/Gen/BiTie.lean and SLV/Gen/MulTie.lean prove (kernel-
 generated definition equals the hand-written model; an edit of any expression in the Rust text changes
 the generated term and the corresponding theorem stops checking.
 
-Anything outside the supported subset makes the translator exit with status 2 and a message
-`rs2lean: <file>: fn <name>: unsupported <construct>` (a broken tie, which is the intended outcome).
+Parsed Rust subset (sections 1-3; a general expression/statement parser; regexes are used only
+on TYPE texts -- impl headers, parameter types, where clauses -- never on a formula):
+  items      fn inside impl / macro_rules bodies (`$ft`), generic parameters, where clauses (skipped as types)
+  statements `let [mut] x [: T] [= e];`  `let x;` + later `x = e;`  `x = e;` `x += e;` `x /= e;` `p[i] /= e;`
+             `e;`  `e?;`  `e.unwrap();`  `for i in T::indexes() { .. }`  `if c { return e; }`  if / else-if / else
+             with assignments, tail expressions
+  expressions float literals 0.0 1.0 2.0, + - * /, unary - ! * &, comparisons, && ||, parentheses, tuples, arrays,
+             paths with turbofish / `<V>::min`, field access, `.0`, method calls, calls, indexing, `?`, closures
+             `|i| e` `|(x, &a)| e` `|&b| e` `|_| e`, blocks, `if` as a value, `match` on Boolean tuples with
+             or-patterns / bindings / `_`, `match op { A | B if g => e, .. }`, struct literals, macros
+             `ulps_eq!(a, b)` `matches!(x, P)`, `return`
+What the back ends (sections 5-6) accept of it is narrower and strict: every construct they do not know makes the
+translator exit with status 2 and a message `rs2lean: <file>: fn <name>: unsupported <construct>`; nothing is
+written then (a broken tie, which is the intended outcome).  Section 7 pins the accessors that are translated by
+convention.
 python3 standard library only.
 """
 import sys, os, re, hashlib, argparse
@@ -498,6 +511,10 @@ class FnItem:
             name, ctx, params, ret, lazy, span, fname
         self._body = None
 
+    def body_text(self):
+        """the body as its token sequence (insensitive to white space and comments)"""
+        return " ".join(t.v for t in self.lazy[0][self.lazy[1]:self.lazy[2]])
+
     @property
     def body(self):
         if self._body is None:
@@ -569,7 +586,7 @@ def scan_items(text, fname):
                 elif v.k == "p" and v.v == "}":
                     d -= 1
             span = (toks[i].pos, toks[p.i - 1].pos + 1)
-            items.append(FnItem(name, ctx, params, ret, (toks, b0), span, fname))
+            items.append(FnItem(name, ctx, params, ret, (toks, b0, p.i), span, fname))
             items[-1].where = where
             i = p.i
             hdr_start = i
@@ -1118,6 +1135,57 @@ def find(items, name, ctx_re):
     return hits[0]
 
 
+SX = r"^impl < T , V > Simplex < T , V >$"
+OPREF = r"^impl < T , V > OpinionRef < '_ , T , V >$"
+
+# ------------------------------------------------------------------------------------------------
+# 7. convention guards: accessors / trivial constructors that the back ends translate BY CONVENTION
+#    (`self.b()` ↦ x.b, `Simplex::new_unchecked(b, u)` ↦ Simplex.mk b u, ...).  Their bodies are pinned
+#    token by token; an edit makes the translator fail (= broken tie) instead of silently keeping the convention.
+# ------------------------------------------------------------------------------------------------
+BSX, BOP = r"^impl < T > BSimplex < T >$", r"^impl < T > BOpinion < T >$"
+OPN = r"^impl < T , V > Opinion < T , V >$"
+GUARDS = {
+    "bi.rs": [
+        ("new_unchecked", BSX, ["b", "d", "u"], "{ Self ( Simplex1d :: new_unchecked ( [ b , d ] , u ) ) }"),
+        ("b", BSX, ["self"], "{ & self . 0 . belief [ 0 ] }"),
+        ("d", BSX, ["self"], "{ & self . 0 . belief [ 1 ] }"),
+        ("u", BSX, ["self"], "{ & self . 0 . uncertainty }"),
+        ("new_unchecked", BOP, ["b", "d", "u", "a"],
+         "{ Self { simplex : BSimplex :: new_unchecked ( b , d , u ) , base_rate : a } }"),
+        ("b", BOP, ["self"], "{ & self . simplex . b ( ) }"),
+        ("d", BOP, ["self"], "{ & self . simplex . d ( ) }"),
+        ("u", BOP, ["self"], "{ self . simplex . u ( ) }"),
+        ("a", BOP, ["self"], "{ & self . base_rate }"),
+    ],
+    "mul.rs": [
+        ("new_unchecked", SX, ["b", "u"], "{ Self { belief : b , uncertainty : u } }"),
+        ("b", SX, ["self"], "{ & self . belief }"),
+        ("u", SX, ["self"], "{ & self . uncertainty }"),
+        ("b", OPREF, ["self"], "{ & self . simplex . belief }"),
+        ("u", OPREF, ["self"], "{ self . simplex . uncertainty }"),
+        ("b", OPN, ["self"], "{ & self . simplex . belief }"),
+        ("u", OPN, ["self"], "{ self . simplex . uncertainty }"),
+        ("as_ref", r"^impl < S , T > OpinionBase < S , T >$", ["self"],
+         "{ OpinionBase { simplex : & self . simplex , base_rate : & self . base_rate } }"),
+    ],
+}
+
+
+def check_guards(items, fname, text):
+    spans = []
+    for name, ctx, params, body in GUARDS[fname]:
+        it = find(items, name, ctx)
+        got_params = [p[0] if p[0] == "self" else (p[0][1] if p[0][0] == "pid" else "?") for p in it.params]
+        got = it.body_text().replace(", }", "}").replace(",}", "}")
+        got = re.sub(r"\s+", " ", got.replace("}", " }")).strip()
+        if got_params != params or got != body:
+            raise Unsupported("%s: fn %s (%s): convention guard: the accessor/constructor is no longer `%s`, found `%s`"
+                              % (fname, name, ctx.strip("^$"), body, got))
+        spans.append(text[it.span[0]:it.span[1]])
+    return spans
+
+
 BI_TARGETS = [
     # (lean name, rust fn, regex on the enclosing impl header, owner)
     ("check_simplex", "check_simplex", r"^$", None),
@@ -1146,7 +1214,7 @@ def gen_bi(src_dir):
     fname = "bi.rs"
     text = open(os.path.join(src_dir, fname)).read()
     items = scan_items(text, fname)
-    defs, spans = [], []
+    defs, spans = [], check_guards(items, fname, text)
     for lean_name, rust, ctx, owner in BI_TARGETS:
         it = find(items, rust, ctx)
         span = text[it.span[0]:it.span[1]]
@@ -1280,6 +1348,8 @@ class MulEmit(Emit):
             return ("Op", self.dims[args[0]])
         if head in self.dims and head in self.spec.get("cond", ()):
             return ("V", self.dims[head], ("Sx", self.spec["cond"][head]))
+        if head == "FuseOp":
+            return FUSE
         self.fail("impl header `%s`" % self.item.ctx)
 
     # -- expressions ---------------------------------------------------------------------
@@ -1330,6 +1400,11 @@ class MulEmit(Emit):
             return t + (self.block_type(e, sc),)
         if k == "macro" and e[1] == "ulps_eq" and len(e[2]) == 2:
             return Emit.ex(self, e, sc) + (B,)
+        if k == "macro" and e[1] == "matches" and len(e[2]) == 2 and e[2][1][0] == "path" \
+                and len(e[2][1][1]) == 2 and e[2][1][1][0] == "FuseOp" and e[2][1][1][1] in self.FUSEOPS:
+            v = self.ex3(e[2][0], sc)
+            if v[2] == FUSE:
+                return ("(match %s with | %s => true | _ => false)" % (v[0], self.FUSEOPS[e[2][1][1][1]]), P_ATOM, B)
         if k == "index":
             v, i = self.ex3(e[1], sc), self.ex3(e[2], sc)
             if v[2][0] != "V" or i[2] != ("I", v[2][1]):
@@ -1345,6 +1420,12 @@ class MulEmit(Emit):
             fin = self.iter_final(e, sc)
             if fin is not None:
                 return fin
+            if self.iterator(e[1], sc) is not None:
+                self.fail("iterator adaptor / consumer `.%s(..)` in `%s`" % (e[2], describe(e)))
+            if e[1][0] == "tuple" and len(e[1][1]) == 2 and e[2] == "into" and not e[3]:
+                s_, a_ = self.ex3(e[1][1][0], sc), self.ex3(e[1][1][1], sc)
+                if s_[2][0] == "Sx" and a_[2] == tab(s_[2][1]) and self.spec["rty"].startswith("Opinion "):
+                    return app("Opinion.mk'", s_[:2], a_[:2]) + (("Op", s_[2][1]),)
             r = self.ex3(e[1], sc)
             return self.member(e, r, e[2], e[3], sc)
         if k == "call" and e[1][0] == "path":
@@ -1454,6 +1535,11 @@ class MulEmit(Emit):
         if f == "projections" and len(a) == 2 and a[0][2][0] == "V" and a[0][2][2][0] == "Sx":
             d, dm = a[0][2][1], a[0][2][2][1]
             return app(NS + "projections", a[0][:2], a[1][:2]) + (("V", d, tab(dm)),)
+        if f == "compute_simlex" and [x[2][0] for x in a] == ["Fuse", "Sx", "Sx"]:
+            return app(NS + "compute_simlex", *[x[:2] for x in a]) + (a[1][2],)
+        if f == "compute_base_rate" and [x[2][0] for x in a] == ["Fuse", "Op", "Op"] and "same_arg" in self.spec:
+            # pointer identity of the two base-rate objects is decided by the caller's arguments: parameter `same`
+            return app(NS + "compute_base_rate", a[0][:2], (self.spec["same_arg"], P_ATOM), a[1][:2], a[2][:2]) + (tab(a[1][2][1]),)
         if f == "Some" and len(a) == 1:
             return app("some", a[0][:2]) + (("Opt", a[0][2]),)
         if f == "std::ptr::eq" and len(args) == 2 and "ptr_eq" in self.spec:
@@ -1801,6 +1887,9 @@ class MulEmit(Emit):
                 t = self.self_type()
                 sc = sc.bind("self", "self", t)
                 binders.append(("self", t))
+                for extra_after, btext, _ in self.spec.get("extra", ()):
+                    if extra_after == "self":
+                        binders.append((btext, None))
                 continue
             if pat[0] != "pid":
                 self.fail("parameter pattern")
@@ -1834,8 +1923,6 @@ def walk_kind(e, kind):
             yield from walk_kind(x, kind)
 
 
-SX = r"^impl < T , V > Simplex < T , V >$"
-OPREF = r"^impl < T , V > OpinionRef < '_ , T , V >$"
 MUL_TARGETS = [
     # (lean name, rust fn, regex on the enclosing impl header, spec)
     ("Simplex_vacuous", "vacuous", SX, {"rty": "Simplex α n", "dims": {"T": "n"}}),
@@ -1855,6 +1942,8 @@ MUL_TARGETS = [
     ("compute_base_rate", "compute_base_rate", r"^$",
      {"rty": "Tab α n", "dims": {"T": "n"}, "extra": [("op", "(same : Bool)", None)],
       "ptr_eq": (["lhs.base_rate", "rhs.base_rate"], "same")}),
+    ("fuse", "fuse", r"Fuse < OpinionRef < 'a , T , V > , OpinionRef < 'a , T , V > , Idx > for FuseOp",
+     {"rty": "Opinion α n", "extra": [("self", "(same : Bool)", None)], "same_arg": "same"}),
     ("mbr", "mbr", r"^$", {"rty": "Option (Tab α m)", "cond": {"Cond": "m"}}),
     ("projections", "projections", r"^$", {"rty": "Vector (Tab α m) n", "cond": {"Cond": "m"}, "dims": {"Cond": "n"}}),
     ("deduce_of", "deduce_of", r"^$", {"rty": "Opinion α m", "cond": {"Cond": "m"}}),
@@ -1867,7 +1956,7 @@ def gen_mul(src_dir):
     fname = "mul.rs"
     text = open(os.path.join(src_dir, fname)).read()
     items = scan_items(text, fname)
-    defs, spans = [], []
+    defs, spans = [], check_guards(items, fname, text)
     for lean_name, rust, ctx, spec in MUL_TARGETS:
         it = find(items, rust, ctx)
         span = text[it.span[0]:it.span[1]]
